@@ -142,6 +142,8 @@ func (c *Client[Req, Res]) CallServerStream(ctx context.Context, request *Reques
 		return nil, err
 	}
 	if err := conn.CloseRequest(); err != nil {
+		// The caller gets no stream to close: release the response here.
+		_ = conn.CloseResponse()
 		return nil, err
 	}
 	return &ServerStreamForClient[Res]{conn: conn}, nil
